@@ -171,3 +171,71 @@ contract(GD + '_introspect_signals',
              'C12.signals.name_stage_flags_parameters': 'implies(0 <= J and J < len(%s), '
                                                         'signal_matches(node.signals[old(len(node.signals)) + J], %s[J]))' % (SG, SG),
          })
+
+
+# ---- GDumpParser.parse: the get-type functions of all registered types leave the namespace ---------------------------------------
+from . import c04_symbols   # noqa  (split_csymbol, Namespace.remove)
+inline('giscanner.ast.Namespace.values', 'giscanner.ast.Namespace.items')
+UNIVERSE.register(_ET.ElementTree)
+contract(GD + '_execute_binary_get_tree', params={'self': 'GDumpParser'}, returns='ElementTree', fresh_result=True, trusted=True,
+         raises={'SystemExit': 'maybe', 'OSError': 'maybe'}, note='runs the dump binary and parses its XML output')
+contract('xml.etree.ElementTree.ElementTree.getroot', params={'self': 'ElementTree'}, returns='Element', pure_keys=['self'], trusted=True)
+contract('xml.etree.ElementTree.Element.__iter__', params={'self': 'Element'}, returns='ElementList', pure_keys=['self'], trusted=True,
+         note='the children of an element in document order')
+THIS_NS = ['self._namespace.names{}', 'self._namespace.aliases{}', 'self._namespace.type_names{}', 'self._namespace.symbols{}',
+           'self._namespace.ctypes{}']
+PAIR_MODS = THIS_NS + ['*.namespace', '*.gtype_name', '*.get_type', '*.c_symbol_prefix', '*.disguised', 'LOGGER._warning_count']
+NODE_FIELDS = ['namespace', 'gtype_name', 'get_type', 'glib_type_struct', 'is_gtype_struct_for', 'error_domain', 'parent_type',
+               'c_symbol_prefix', 'fundamental', 'is_abstract', 'is_final', 'parent_chain', 'ref_func', 'unref_func', 'set_value_func',
+               'get_value_func', 'ctype', 'copy_func', 'free_func', 'opaque', 'disguised', 'pointer', 'name', 'doc', 'moved_to',
+               'is_method', 'is_constructor', 'interfaces', 'prerequisites', 'properties', 'signals', 'methods', 'static_methods',
+               'constructors', 'fields', 'members']
+TYPE_MODS = ['*[]', '*{}', 'LOGGER._warning_count'] + ['*.%s' % f for f in NODE_FIELDS]
+for _name, _params in (('_introspect_error_quark', {'self': 'GDumpParser', 'xmlnode': 'Element'}),
+                       ('_introspect_type', {'self': 'GDumpParser', 'xmlnode': 'Element'}),
+                       ('_pair_boxed_type', {'self': 'GDumpParser', 'boxed': 'Boxed'}),
+                       ('_pair_pointer_type', {'self': 'GDumpParser', 'pointer': 'Pointer'})):
+    contract(GD + _name, params=_params, trusted=True, modifies=TYPE_MODS if _name.startswith('_introspect') else PAIR_MODS,
+             raises={'KeyError': 'maybe', 'ValueError': 'maybe', 'AssertionError': 'maybe', 'SystemExit': 'maybe'},
+             ensures={'symbol_filter_kept': 'self._transformer._symbol_filter_cmd is old(self._transformer._symbol_filter_cmd)',
+                      'same_namespace': 'self._transformer._namespace is old(self._transformer._namespace)'},
+             note='merging of one dumped type into the namespace: coarse frame only (the pieces under contract are '
+                  '_introspect_properties / _introspect_signals / _resolve_and_filter_type_list / _find_class_record / _add_record_fields)')
+
+
+def gives_up_get_type(node):
+    """a registered type (class, interface, boxed, enumeration, flags, and records / unions paired with a boxed or pointer GType)
+    whose get-type function is a real symbol"""
+    return isinstance(node, ast.Registered) and node.get_type is not None and node.get_type != 'intern'
+
+
+NODE = 'self._namespace.names.get(ITER5[%s])'     # ITER5: the order in which loop 5 visits the names of the namespace
+GT_FOLD = {'NP': {'type': 'int', 'init': '0', 'step': "ACC + (1 if gives_up_get_type(%s) else 0)" % (NODE % 'I5')}}
+contract(GD + 'parse', params={'self': 'GDumpParser'}, ghost={'G': 'int'}, props=('C12',), budget=3,
+         requires=['self._transformer._symbol_filter_cmd is None', 'self._transformer._namespace is self._namespace'],
+         modifies=TYPE_MODS, raises={'KeyError': 'True', 'ValueError': 'True', 'AssertionError': 'True', 'SystemExit': 'True', 'OSError': 'True'},
+         var_types={'to_remove': 'list[Node]'},
+         loops={
+             1: {'invariant': ['self._transformer._symbol_filter_cmd is None'], 'modifies': TYPE_MODS, 'var_types': {'child': 'Element'},
+                 'assume_iter_unchanged': 'the introspection functions build namespace nodes and never touch the XML tree of the dump'},
+             2: {'invariant': ['True'], 'modifies': PAIR_MODS, 'var_types': {'boxed': 'Boxed', 'name': 'str'}},
+             3: {'invariant': ['True'], 'modifies': PAIR_MODS, 'var_types': {'pointer': 'Pointer', 'name': 'str'}},
+             4: {'invariant': ['True'], 'modifies': ['*.glib_type_struct', '*.is_gtype_struct_for', 'node.file_positions{}'],
+                 'var_types': {'node': 'Node'},
+                 'assume_item': ['node.name is not None and node.namespace is not None']},
+             5: {'index': 'I5', 'modifies': ['to_remove[]'], 'folds': GT_FOLD,
+                 'invariant': ['is_fresh(to_remove)', "len(to_remove) == FOLD('NP', I5)",
+                               "implies(0 <= G and G < I5 and gives_up_get_type(%s), 0 <= FOLD('NP', G) and "
+                               "FOLD('NP', G) < len(to_remove) and to_remove[FOLD('NP', G)] is "
+                               "self._namespace.names.get(self._transformer.split_csymbol(%s.get_type)[1]))" % (NODE % 'G', NODE % 'G')],
+                 'post': ["implies(0 <= G and G < len(ITER5) and gives_up_get_type(%s), 0 <= FOLD('NP', G) and "
+                          "FOLD('NP', G) < len(to_remove) and to_remove[FOLD('NP', G)] is "
+                          "self._namespace.names.get(self._transformer.split_csymbol(%s.get_type)[1]))" % (NODE % 'G', NODE % 'G')],
+                 'var_types': {'node': 'Node', 'name': 'str', 'get_type_func': 'Node', 'ns': 'Namespace'}},
+             6: {'index': 'I6', 'invariant': ['True'], 'modifies': THIS_NS + ['*.namespace'], 'var_types': {'node': 'Node'}},
+         },
+         ensures={
+             'C12.get_type.exactly_the_listed_functions_are_removed': "all_calls('remove', 'arg_node is local_to_remove[local_I6]')",
+         },
+         note='loop 5 (invariant): the function named by the get-type symbol of EVERY registered type - also of records and unions '
+              'paired with a boxed / pointer GType - is put on the removal list, in namespace order; loop 6 removes the listed nodes')
